@@ -1602,7 +1602,15 @@ Section RefsTable.
       cbn [map]. rewrite IH. f_equal. cbn [rec_read fix_index delta_ref r_name r_index r_val r rd_min].
       f_equal. destruct x as [nm ix v]. cbn [r_name r_index r_val] in *. f_equal.
       replace (ix - min + min) with ix by lia. apply N.mod_small. exact I. }
-    intros oid. rewrite <- FIN. unfold refs_for. rewrite RP, RIDL.
+    (* the reader sees a ref section exactly when the first block is a ref block *)
+    assert (RPR : o_present (rd_ref r) = (ck_typ k0 =? typ_ref)) by reflexivity.
+    intros oid. rewrite <- FIN. unfold refs_for. rewrite RPR.
+    destruct (N.eqb_spec (ck_typ k0) typ_ref) as [T0|T0]; cbn [negb].
+    2:{ (* no ref block in front: the table has no ref section, and no refs *)
+        destruct rsec as [|kr rsec']; [reflexivity|].
+        exfalso. apply T0. pose proof (Forall_inv TR) as TK.
+        unfold fcs in EFull. cbn [app] in EFull. injection EFull as -> _. exact TK. }
+    rewrite RP, RIDL.
     destruct (N.ltb_spec 0 oo) as [PO|PO]; [|apply LIN].
     destruct osec as [|ko osec']; [rewrite OO in PO; lia|].
     set (osec := ko :: osec') in *.
